@@ -25,7 +25,8 @@ theorem b2n_xor (a b : Bool) : b2n (xor a b) % 2 = (b2n a + b2n b) % 2 := by
 /-- invariant of the loop `for c in clusters` of `Clustering_Tree.merge`; `rem` = records still to
     be absorbed into `bAcc` -/
 structure AInv (m : Nat) (sy : Vec) (rep0 : Nat → Nat) (sPar0 : Nat → Int) (fr : List Cluster)
-    (b : Nat) (others rem : List Cluster) (sp : Nat → Int) (rp dp : Nat → Nat) (bAcc : Cluster) : Prop where
+    (b : Nat) (b0bnd : List Int) (others rem : List Cluster) (sp : Nat → Int) (rp dp : Nat → Nat)
+    (bAcc : Cluster) : Prop where
   uf : UFInv m sp rp dp
   b_root : sp b = (b : Int)
   coarse : ∀ i j, sPar0 i ≠ -1 → sPar0 j ≠ -1 → rep0 i = rep0 j → rp i = rp j
@@ -47,10 +48,13 @@ structure AInv (m : Nat) (sy : Vec) (rep0 : Nat → Nat) (sPar0 : Nat → Int) (
   fr_b : ∀ c, c ∈ fr → c.root ≠ b
   frame : ∀ i, sPar0 i ≠ -1 → rp i = rep0 i ∨ ∃ k, k ∈ others ∧ k.root = rep0 i
   newlive : ∀ i, sPar0 i = -1 → sp i ≠ -1 → ∃ k, k ∈ others ∧ k.root = i
+  /-- `_boundary_list` of the accumulated record: the union of the absorbed ones (`b0bnd` = the
+      boundary list of `biggest` before the merge) -/
+  bnd_iff : ∀ x, x ∈ bAcc.bnd ↔ (x ∈ b0bnd ∨ ∃ k, k ∈ others ∧ k ∉ rem ∧ x ∈ k.bnd)
 
 section
 variable {m : Nat} {sy : Vec} {rep0 : Nat → Nat} {sPar0 : Nat → Int} {fr : List Cluster} {b : Nat}
-  {others : List Cluster}
+  {b0bnd : List Int} {others : List Cluster}
 
 /-- the defect count of a tree only looks at defects, which are never fresh -/
 theorem clsCnt_congr {sp sp' : Nat → Int} {rp rp' : Nat → Nat} (x y : Nat)
@@ -73,8 +77,8 @@ theorem clsCnt_congr {sp sp' : Nat → Int} {rp rp' : Nat → Nat} (x y : Nat)
 
 theorem AInv_step {k : Cluster} {rem : List Cluster} {sp : Nat → Int} {rp dp : Nat → Nat}
     {bAcc : Cluster}
-    (I : AInv m sy rep0 sPar0 fr b others (k :: rem) sp rp dp bAcc) :
-    ∃ rp' dp', AInv m sy rep0 sPar0 fr b others rem
+    (I : AInv m sy rep0 sPar0 fr b b0bnd others (k :: rem) sp rp dp bAcc) :
+    ∃ rp' dp', AInv m sy rep0 sPar0 fr b b0bnd others rem
       (fun i => if i = k.root then (b : Int) else sp i) rp' dp' (absorb bAcc k) := by
   obtain ⟨hkm, hkb, hkind⟩ := I.rem_ok k (by simp)
   have hnd := I.rem_nodup
@@ -165,7 +169,7 @@ theorem AInv_step {k : Cluster} {rem : List Cluster} {sp : Nat → Int} {rp dp :
           · simp [h2]
       rw [this]; rfl
   refine ⟨_, _, ⟨U', ?_, ?_, ?_, ?_, hnd.2, ?_, ?_, ?_, I.acc_root, ?_, ?_, ?_, ?_,
-    fun c hc k' hk' => I.fr_disj c hc k' (by simp [hk']), I.fr_b, ?_, ?_⟩⟩
+    fun c hc k' hk' => I.fr_disj c hc k' (by simp [hk']), I.fr_b, ?_, ?_, ?_⟩⟩
   · -- b_root
     simp only [hkb.symm, if_false]; exact I.b_root
   · -- coarse
@@ -280,11 +284,26 @@ theorem AInv_step {k : Cluster} {rem : List Cluster} {sp : Nat → Int} {rp dp :
     by_cases h : i = k.root
     · exact ⟨k, I.rem_sub k (by simp), h.symm⟩
     · simp only [h, if_false] at hl; exact I.newlive i hi hl
+  · -- bnd_iff
+    intro x
+    show x ∈ sunion bAcc.bnd k.bnd ↔ _
+    rw [mem_sunion, I.bnd_iff]
+    have hk_notin : k ∉ rem := fun h => hnd.1 (List.mem_map.mpr ⟨k, h, rfl⟩)
+    constructor
+    · rintro ((h | ⟨k', h1, h2, h3⟩) | h)
+      · exact Or.inl h
+      · exact Or.inr ⟨k', h1, fun hh => h2 (by simp [hh]), h3⟩
+      · exact Or.inr ⟨k, I.rem_sub k (by simp), hk_notin, h⟩
+    · rintro (h | ⟨k', h1, h2, h3⟩)
+      · exact Or.inl (Or.inl h)
+      · by_cases hkk : k' = k
+        · subst hkk; exact Or.inr h3
+        · exact Or.inl (Or.inr ⟨k', h1, by simp [hkk, h2], h3⟩)
 
 theorem AInv_fold :
     ∀ (rem : List Cluster) (sp : Nat → Int) (rp dp : Nat → Nat) (bAcc : Cluster),
-      AInv m sy rep0 sPar0 fr b others rem sp rp dp bAcc →
-      ∃ rp' dp', AInv m sy rep0 sPar0 fr b others []
+      AInv m sy rep0 sPar0 fr b b0bnd others rem sp rp dp bAcc →
+      ∃ rp' dp', AInv m sy rep0 sPar0 fr b b0bnd others []
         (rem.foldl (fun p c => fun i => if i = c.root then (b : Int) else p i) sp) rp' dp'
         (rem.foldl absorb bAcc) := by
   intro rem
